@@ -87,6 +87,9 @@ CHUNKS = {
     "with_for_targets": "import io\nwith io.StringIO() as handle:\n    inside_with = 7000\nfor loop_name in (1, 2):\n    inside_loop = loop_name\n",
     "if_try_blocks": "import sys\nif sys.argv:\n    in_if = 7000\nelse:\n    in_else = 7001\ntry:\n    in_try = 1\nexcept Exception:\n    in_except = 2\nfinally:\n    in_finally = 3\n",
     "class_aug_attr": "class Acc:\n    total = 0\n    total += 7000\n    ratio: float = 0.5\n    first, second = 1, 2\n",
+    # a module-level name that is also spelled as an attribute inside its own module (os.path): files that are both
+    # formatted and preserved count their own attribute names as uses
+    "attr_twin": "import os\n\npath = os.path.join('etc', 'vk')\nsep = os.sep + str(7000)\n",
     "const_repeat": "A1 = 'some repeated text'\nA2 = 'some repeated text'\nA3 = 'some repeated text'\nA4 = 'some repeated text'\nA5 = 'some repeated text'\n",
 }
 
